@@ -77,6 +77,10 @@ CLAIMED = {
             "TLC enumerates commit graphs (root, linear, two new commits, side-branch merges, merge back of an ancestor, merge of unrelated history) over trees of three path atoms, every signer assignment and every rule extent, proves that the matcher as designed refines the declarative file rule and that a net change of a protected path is always vouched for by an authorised signer (and that the documented merge exemption is exactly what this needs as a proviso); a seeded sample is built with odd concrete path names (space, tab, quote, backslash, control, UTF-8, DEL, glob metacharacters) in real on-disk repositories, and TLC judges the verdict of the real verifier and what GetFilePathsChangedByCommit, GetAllFilesInTree, GetEntriesInTree, GetPathIDInTree and WriteTree returned for the written paths.",
             "File rules with threshold 1 (no approvals); newline excluded (as in the property); sampled, not exhaustive, on the real-Git side.",
             "DESIGN.md section 4 C10"),
+    "C15": ("Reconcile.tla, MC_Reconcile.tla, Trace_Reconcile.tla",
+            "TLC enumerates every pair of logs sharing a prefix with local-only and remote-only suffixes of reference entries, propagation entries and skip annotations (naming shared or local-only entries) on two references, and proves that re-recording as designed yields exactly the remote log followed by the local-only entries with their meaning (same reference and target, annotations still naming - and still skipping - the re-recorded counterparts), refuses conflicts without effect, and that synchronisation under every branch placement and both overwrite settings moves references only to recorded states, never rewinds unless told to, only extends the remote log and publishes entries together with their references; the log pairs are built in two real repositories, ReconcileLocalRSLWithRemote and Sync run through experimental/gittuf, and TLC judges the logs and references read back.",
+            "Bare repositories over the file transport, unsigned entries, no tags; a sampled subset is replayed on real Git.",
+            "DESIGN.md section 4 C15"),
     "C18": ("Propagation.tla, MC_Propagation.tla, Trace_Propagation.tla",
             "TLC explores every sequence of upstream commits, upstream revocations, downstream edits (outside and inside the downstream path) and propagation calls with one or two directives up to the bound, and proves that the algorithm as designed does what the declarative layer says (exact subtree, frame, entry names upstream location and entry, no-op when already there) and that repeating a call changes nothing; emitted sequences are replayed on pairs of real on-disk repositories with concrete, partly odd, path names and file modes, and TLC replays the model alongside and judges tree (path, blob, mode), commit count and propagation entries after every action.",
             "Bare repositories; downstream/upstream path being a file not covered; the executable-bit / symlink loss is a recorded finding.",
